@@ -396,19 +396,32 @@ ENG_RULE = ("one trace = one bubble run of a real engine.io server with 1-3 sess
             "the TLA+ monitor EioMon.tla evaluates every session-level clause on every event")
 
 
-def eng_prop(pid, fams, extra=(), nq=60, nt=900):
+def race_run(ctx):
+    """family race: the real scheduler (GOMAXPROCS 8) instead of gates; one compact result event per scenario, judged by RaceMon.tla"""
+    trace, summ = M.go_family(ctx, "race", nrandom=9 if ctx.quick else 240, timeout=3000, env={"VERIF_WALL_S": "120"})
+    v, lines = M.tlc_trace(ctx, "RaceMon", MON_EIO_CFG, "race", trace, timeout=3000)
+    n = summ.get("stats", {}).get("scenarios", 0)
+    ctx.traces += n
+    ctx.events += lines
+    ctx.extra["race_scenarios_real_scheduler"] = n
+    return v
+
+
+def eng_prop(pid, fams, extra=(), nq=60, nt=900, race=False):
     @prop(pid)
     def f(ctx):
         evs = eng_run(ctx, fams, nq, nt, extra)
+        if race:
+            M.classify(ctx, race_run(ctx))
         ctx.assumptions = ENG_ASSUME
         return M.finish(ctx, rule=ENG_RULE, evs=evs)
     return f
 
 
-eng_prop("C01", ["flow", "upg"], extra=("direct",))
+eng_prop("C01", ["flow", "upg"], extra=("direct",), race=True)
 eng_prop("C02", ["flow", "poll"], extra=("direct",))
-eng_prop("C03", ["life"], extra=("direct",), nq=90)
-eng_prop("C04", ["life"], nq=90)
+eng_prop("C03", ["life"], extra=("direct",), nq=90, race=True)
+eng_prop("C04", ["life"], nq=90, race=True)
 BEAT_CFG = ("SPECIFICATION Spec\nCONSTANTS PI = %d PT = %d MaxNow = %d Delays = %s\n"
             "INVARIANTS NoMissedPing NoMissedTimeout TimeoutExact AnsweredNeverClosed PingSchedule\nCHECK_DEADLOCK FALSE\n")
 
